@@ -505,7 +505,7 @@ void rt_run_tasks(int ntasks, TaskFn fn, void* arg, ChooseFn choose, void* cctx,
     if (tk->done.load(std::memory_order_acquire)) { alive &= ~(1ull << task); pthread_join(tk->th, nullptr); }
   }
   { int task = -1; uint64_t q = 0; choose(cctx, 0, last, last_guard, &task, &q); }   // final monitoring turn (no task left)
-  if (res) res->tasks_preempted_in_lib = __builtin_popcountll(lib_pre_mask);
+  if (res) { res->tasks_preempted_in_lib = __builtin_popcountll(lib_pre_mask); for (int i = 0; i < ntasks; ++i) if (tasks[i].ctx.runtime_state_call && !res->runtime_state_call) res->runtime_state_call = tasks[i].ctx.runtime_state_call; }
   if (log_n) *log_n = n < log_cap ? n : log_cap;
   g_tasks = nullptr; g_ntasks = 0;
   delete[] tasks;
@@ -546,3 +546,26 @@ extern "C" __attribute__((used)) const char* __asan_default_options() {
 }
 extern "C" __attribute__((used)) const char* __ubsan_default_options() { return "print_stacktrace=1:halt_on_error=1:exitcode=78"; }
 extern "C" __attribute__((used)) const char* __tsan_default_options() { return "halt_on_error=1:exitcode=66:report_signal_unsafe=0:history_size=7"; }
+
+// ---- process-global state of the C/C++ runtime (libclipsim.so is linked with --wrap for these): library code that
+// calls one of them keeps mutable state outside the caller's objects. The call is forwarded and recorded.
+#include <clocale>
+#include <exception>
+#define SIM_NOTE(name) do { sim::TaskCtx* t_ = sim::sim_cur(); if (t_->scope > 0 && !t_->runtime_state_call) t_->runtime_state_call = name; } while (0)
+extern "C" {
+int __wrap_rand() { SIM_NOTE("rand"); return rand(); }
+void __wrap_srand(unsigned s) { SIM_NOTE("srand"); srand(s); }
+long __wrap_random() { SIM_NOTE("random"); return random(); }
+void __wrap_srandom(unsigned s) { SIM_NOTE("srandom"); srandom(s); }
+double __wrap_drand48() { SIM_NOTE("drand48"); return drand48(); }
+long __wrap_lrand48() { SIM_NOTE("lrand48"); return lrand48(); }
+long __wrap_mrand48() { SIM_NOTE("mrand48"); return mrand48(); }
+void __wrap_srand48(long s) { SIM_NOTE("srand48"); srand48(s); }
+char* __wrap_strtok(char* s, const char* d) { SIM_NOTE("strtok"); return strtok(s, d); }
+char* __wrap_setlocale(int c, const char* l) { SIM_NOTE("setlocale"); return setlocale(c, l); }
+int __wrap_putenv(char* s) { SIM_NOTE("putenv"); return putenv(s); }
+int __wrap_setenv(const char* n, const char* v, int o) { SIM_NOTE("setenv"); return setenv(n, v, o); }
+int __wrap_unsetenv(const char* n) { SIM_NOTE("unsetenv"); return unsetenv(n); }
+std::new_handler __wrap__ZSt15set_new_handlerPFvvE(std::new_handler h) { SIM_NOTE("std::set_new_handler"); return std::set_new_handler(h); }
+std::terminate_handler __wrap__ZSt13set_terminatePFvvE(std::terminate_handler h) { SIM_NOTE("std::set_terminate"); return std::set_terminate(h); }
+}
